@@ -45,6 +45,9 @@ CMODELS = [
     (['S', 'I', 'R'], {'S': ['linear', 1.5, 'I', 1, 1], 'I': ['const', 1.0, 'I', 1, 1]}, {'S': 'I', 'I': 'R', 'R': 'S'}),
     (['S', 'I'], {'S': ['threshold', 2.0, 'I', 1, 2], 'I': ['const', 0.7, 'I', 1, 1]}, {'S': 'I', 'I': 'S'}),
     (['S', 'I', 'R'], {'S': ['linear', 0.1, 'I', 1, 1], 'I': ['const', 0.3, 'I', 1, 1]}, {'S': 'I', 'I': 'R', 'R': 'S'}),
+    # attempts that may fail: an undecided node tries at rate 1 and adopts only if a neighbour has adopted, otherwise the event
+    # leaves its status unchanged (the chooser answers the current status)
+    (['U', 'A'], {'U': ['const', 1.0, 'A', 1, 1], 'A': ['const', 0.5, 'A', 1, 1]}, {'U': 'A', 'A': 'U'}, {'U': ['A', 1]}),
 ]
 
 
@@ -69,7 +72,8 @@ def legal_moves(case):
     if case['sim'] == 'Gillespie_simple_contagion':
         _, spont, induced = SPECS[case['spec']]
         return set((a, b) for a, b, _, _ in spont) | set((b, c) for _, b, c, _, _ in induced)
-    return set(CMODELS[case['cmodel']][2].items())
+    cm = CMODELS[case['cmodel']]
+    return set(cm[2].items()) | (set((a, a) for a in cm[3]) if len(cm) > 3 else set())
 
 
 def tmax_of(case):
@@ -255,7 +259,8 @@ def build(case, full, budget=None, G=None, extra=None):
         IC = _with_extra(case, initial_status(case))
         return f, [G, H, J, IC, statuses_of(case)], kw
     if sim == 'Gillespie_complex_contagion':
-        statuses, rules, nxt = CMODELS[case['cmodel']]
+        statuses, rules, nxt = CMODELS[case['cmodel']][:3]
+        may_fail = CMODELS[case['cmodel']][3] if len(CMODELS[case['cmodel']]) > 3 else {}
         nodes, adj = oracles.adjacency(case['gc'])
         hops = max([1] + [v[4] for v in rules.values() if v[0] != 'const'])
 
@@ -263,7 +268,12 @@ def build(case, full, budget=None, G=None, extra=None):
             return _c15.rate_of(rules, adj, node, status)
 
         def transition_choice(G_, node, status, parameters):
-            return nxt[status[node]]
+            s_ = status[node]
+            if s_ in may_fail:
+                X, theta = may_fail[s_]
+                if sum(1 for v in adj[node] if status[v] == X) < theta:
+                    return s_           # failed attempt: an event that changes nothing
+            return nxt[s_]
 
         def get_influence_set(G_, node, status, parameters):
             return _c15.ball(adj, node, hops)
